@@ -17,6 +17,34 @@ class Unsupported(Exception):
     pass
 
 
+def _clean_copy(e):
+    from ..inline import clean_copy
+
+    return clean_copy(e)
+
+
+def _resolve_set_expr(g, ret_stmt, e: ast.expr, depth: int = 3) -> ast.expr:
+    """Replace single-definition local names inside a set-algebra expression by their values, so that
+    `in_both = src_exists & dest_exists; ...; CompareStatusResult(ok=in_both, ...)` is read through."""
+    from ..an import reaching_defs
+
+    atoms = {"src_exists", "dest_exists", "src_missing", "dest_missing"}
+    rn = next((n for n in g.nodes.values() if n.ast is ret_stmt), None)
+    if rn is None or depth <= 0:
+        return e
+
+    class T(ast.NodeTransformer):
+        def visit_Name(self, node):
+            if node.id in atoms or not isinstance(node.ctx, ast.Load):
+                return node
+            ds = reaching_defs(g, rn.id, node.id)
+            if len(ds) == 1 and ds[0].kind == "stmt" and isinstance(ds[0].ast, ast.Assign) and len(ds[0].ast.targets) == 1 and isinstance(ds[0].ast.targets[0], ast.Name):
+                return _resolve_set_expr(g, ret_stmt, _clean_copy(ds[0].ast.value), depth - 1)
+            return node
+
+    return T().visit(_clean_copy(e))
+
+
 def eval_set(e: ast.expr, env: Dict[str, bool]) -> bool:
     """Membership of a generic element in the set expression e, given membership in the atoms."""
     if isinstance(e, ast.Name):
@@ -109,6 +137,7 @@ def _partition(ck: Checker) -> None:
                 ck.fail("C12.partition", fn, r, f"component `{name}` is not supplied")
                 continue
             ok, why = True, ""
+            e = _resolve_set_expr(g, r, e)
             try:
                 for s, d in itertools.product([False, True], repeat=2):
                     env = {"src_exists": s, "dest_exists": d, "src_missing": not s, "dest_missing": not d}
@@ -124,10 +153,11 @@ def _partition(ck: Checker) -> None:
     st = prog.func("hashfile.status", "status")
     for nm in ("dest_exists", "src_exists"):
         defs = scope_of(fn).get(nm)
-        ok = any(d.value is not None and any(isinstance(x, ast.Call) and call_name(x) == "status" for x in walk_expr(d.value)) for d in defs)
+        ok = any(d.value is not None and any(isinstance(x, ast.Call) and call_name(x) == "status" for v_ in [d.value] + expand1(prog, fn, d.value, levels=2) for x in walk_expr(v_)) for d in defs)
         ck.require(ok, "C12.partition", fn, fn.node, f"{nm} comes from status()", f"{nm} is not the answer of status()", construct=f"{nm} provenance")
     # shortcut: src := dest only when nothing is missing in dest and deleted not requested
-    shortcut = [n for n in g.nodes.values() if n.kind == "stmt" and isinstance(n.ast, ast.Assign) and norm(n.ast.targets[0]) == "src_exists" and not any(isinstance(x, ast.Call) for x in walk_expr(n.ast.value))]
+    shortcut = [n for n in g.nodes.values() if n.kind == "stmt" and isinstance(n.ast, ast.Assign) and norm(n.ast.targets[0]) == "src_exists"
+                and not any(isinstance(x, ast.Call) and call_name(x) == "status" and x.args and norm(x.args[0]) == "src" for v_ in [n.ast.value] + expand1(prog, fn, n.ast.value, levels=2) for x in walk_expr(v_))]
     for n in shortcut:
         for nm in ("dest_missing", "check_deleted"):
             def lit(t, lab, nm=nm):
